@@ -215,10 +215,11 @@ type coRunner struct {
 	// C15 "members keep working": the Stable group as it was at the last failover; valid
 	// until something legitimately changes the membership (a join, a leave, an expiry that
 	// the harness's own bookkeeping of refresh times and session timeouts agrees with)
-	kw    *coGroupSnap
-	cur   *coGate // the operation being executed (nil between operations)
-	dirty bool    // a whole-group write (Put/Delete) failed and none has succeeded since: the store image is stale
-	depth int     // 1 = an operation of the history, 2 = an operation running inside another one's parked store call
+	kw            *coGroupSnap
+	cur           *coGate // the operation being executed (nil between operations)
+	roundDeadline int64   // black box: deadline of the CURRENT rebalance round = time it was (re)started or last joined + rebalance timeout
+	dirty         bool    // a whole-group write (Put/Delete) failed and none has succeeded since: the store image is stale
+	depth         int     // 1 = an operation of the history, 2 = an operation running inside another one's parked store call
 }
 
 func (r *coRunner) now() int64 { return time.Since(r.base).Milliseconds() }
@@ -490,6 +491,18 @@ func (r *coRunner) record(s coStep) {
 					r.fenced[m.id] = true
 				}
 			}
+		}
+	}
+	if s.mem != nil && (s.mem.phase == groupStatePreparingRebalance || s.mem.phase == groupStateCompletingRebalance) {
+		// a rebalance round starts when the generation moves (join of a new member, changed
+		// subscription, leave, cleanup dropping members) or when a coordinator loads a
+		// rebalancing group; every join during the round extends it
+		var prevMem *coGroupSnap
+		if len(r.steps) > 0 {
+			prevMem = r.steps[len(r.steps)-1].mem
+		}
+		if prevMem == nil || prevMem.gen != s.mem.gen || s.kind == "join" {
+			r.roundDeadline = s.now + s.mem.rebto
 		}
 	}
 	if s.mem != nil {
@@ -1080,7 +1093,11 @@ func (r *coRunner) doCleanup() {
 				continue
 			}
 			gone := post.member(m.id) == nil
-			lagger := pre.deadline != nil && now >= *pre.deadline && m.joingen != pre.gen
+			// removed as a lagger only at/after the deadline of the CURRENT rebalance round
+			lagger := pre.phase == groupStatePreparingRebalance && now >= r.roundDeadline && m.joingen != pre.gen
+			if !lagger && pre.deadline != nil && now >= *pre.deadline && m.joingen != pre.gen {
+				r.tags["cleanup-stale-internal-deadline"] = true
+			}
 			if now-last > sess {
 				r.tags["cleanup-expired"] = true
 				if !gone {
@@ -1091,7 +1108,7 @@ func (r *coRunner) doCleanup() {
 			} else if lagger {
 				r.tags["cleanup-lagger"] = true
 				if !gone {
-					r.fail("C43", "lagger-kept", fmt.Sprintf("member %s did not rejoin generation %d before the rebalance deadline %d ms and is still a member after cleanup at %d ms", m.id, pre.gen, *pre.deadline, now))
+					r.fail("C43", "lagger-kept", fmt.Sprintf("member %s did not rejoin generation %d before the rebalance deadline %d ms and is still a member after cleanup at %d ms", m.id, pre.gen, r.roundDeadline, now))
 				} else if post != nil && post.gen <= pre.gen {
 					r.fail("C43", "no-rebalance-after-lagger", fmt.Sprintf("member %s was dropped but the generation stayed %d", m.id, post.gen))
 				}
@@ -1102,10 +1119,12 @@ func (r *coRunner) doCleanup() {
 				}
 				if gone {
 					key := "live-member-removed"
-					if r.hbRebal[m.id] {
+					if pre.phase == groupStatePreparingRebalance && m.joingen != pre.gen && now < r.roundDeadline {
+						key = "dropped-before-deadline-of-current-round" // the rebalance was restarted / extended at a later time than the coordinator's deadline reflects
+					} else if r.hbRebal[m.id] {
 						key = "heartbeat-during-rebalance-ignored" // its last heartbeat was answered REBALANCE_IN_PROGRESS and did not count
 					}
-					r.fail("C43", key, fmt.Sprintf("member %s refreshed at %d ms (session %d ms, rebalance deadline %v, joined generation %d of %d) was removed by cleanup at %d ms", m.id, last, sess, coDeadline(pre), m.joingen, pre.gen, now))
+					r.fail("C43", key, fmt.Sprintf("member %s refreshed at %d ms (session %d ms, coordinator's rebalance deadline %v, current round's deadline %d ms, joined generation %d of %d) was removed by cleanup at %d ms", m.id, last, sess, coDeadline(pre), r.roundDeadline, m.joingen, pre.gen, now))
 					if r.kw != nil && r.kw.member(m.id) != nil {
 						// C15: a member of the generation that was Stable at the failover, refreshed
 						// within its session timeout, is evicted by the new coordinator
@@ -1635,6 +1654,44 @@ func coGenCase(t *testing.T, rng *vRand) *coRunner {
 			pending = plan[1:]
 			return plan[0], true
 		}
+		// shape: a rebalance with a lagger whose deadline passes (the sweep drops it and restarts
+		// the rebalance); the survivors heartbeat and need longer than one sweep interval to
+		// rejoin: they have a whole new rebalance timeout
+		if v != nil && len(cur) >= 2 && rng.Chance(8) {
+			reb := []int32{5000, 20000}[rng.Intn(2)]
+			lag := cur[rng.Intn(len(cur))]
+			var plan []coOp
+			// (re)start a rebalance with a known timeout: a new member joins
+			plan = append(plan, coOp{K: "join", M: -1, Sess: 40000, Reb: reb, Topics: randTopics()})
+			joiner := len(r.ids) // slot of the new member
+			var survivors []int
+			for _, sl := range cur {
+				if sl != lag {
+					survivors = append(survivors, sl)
+				}
+			}
+			// one survivor rejoins at once, the others only heartbeat for now; the lagger is silent
+			if len(survivors) > 0 && rng.Bool() {
+				plan = append(plan, coOp{K: "join", M: survivors[0], Sess: 40000, Reb: reb, Topics: subs[survivors[0]]})
+			}
+			plan = append(plan, coOp{K: "adv", D: int64(reb) + int64(rng.Range(0, 1))})
+			for _, sl := range survivors {
+				plan = append(plan, coOp{K: "hb", M: sl})
+			}
+			plan = append(plan, coOp{K: "hb", M: joiner}, coOp{K: "cleanup"}) // drops the laggers, restarts the rebalance
+			sweep := int64(rng.Range(1000, 4000))
+			plan = append(plan, coOp{K: "adv", D: sweep})
+			for _, sl := range survivors {
+				plan = append(plan, coOp{K: "hb", M: sl})
+			}
+			plan = append(plan, coOp{K: "cleanup"}) // nobody may be dropped here: the new round has just begun
+			for _, sl := range survivors {
+				plan = append(plan, coOp{K: "join", M: sl, Sess: 40000, Reb: reb, Topics: subs[sl]})
+			}
+			plan = append(plan, coOp{K: "join", M: joiner, Sess: 40000, Reb: reb}, coOp{K: "cleanup"})
+			pending = plan[1:]
+			return plan[0], true
+		}
 		// progress moves make complete rebalances frequent
 		if v != nil && rng.Chance(45) {
 			switch v.phase {
@@ -1911,6 +1968,10 @@ func coCorpus() []coCase {
 		{Parts: p, Seed: 23, Ops: []coOp{{K: "join", M: -1, Topics: []int{0}}, {K: "sync", M: 0}, {K: "leave", M: 0, Fail: []string{"persist"}}, {K: "hb", M: 0, G: 1}, {K: "join", M: -1, Topics: []int{0}}, {K: "sync", M: 1}}},
 		{Parts: p, Seed: 24, Ops: []coOp{{K: "join", M: -1, Sess: 5000, Topics: []int{0}}, {K: "sync", M: 0}, {K: "failover"}, {K: "hb", M: 0, G: 1, Fail: []string{"fetch"}}, {K: "sync", M: 0, G: 1, Fail: []string{"fetch"}}, {K: "hb", M: 0, G: 1},
 			{K: "adv", D: 5001}, {K: "cleanup", Fail: []string{"persist"}}, {K: "failover"}, {K: "hb", M: 0, G: 1}, {K: "commit", M: 0, G: 1, T: 0, P: 0, Off: 4, Fail: []string{"commit"}}}},
+		// C43: the sweep drops a lagger and restarts the rebalance: the survivors get a new deadline
+		{Parts: p, Seed: 25, Ops: []coOp{{K: "join", M: -1, Sess: 40000, Reb: 5000, Topics: []int{0}}, {K: "sync", M: 0}, {K: "join", M: -1, Sess: 40000, Reb: 5000, Topics: []int{0}}, {K: "join", M: 0, Sess: 40000, Reb: 5000, Topics: []int{0}}, {K: "sync", M: 0},
+			{K: "join", M: -1, Sess: 40000, Reb: 5000, Topics: []int{0}}, {K: "adv", D: 5000}, {K: "hb", M: 0}, {K: "hb", M: 2}, {K: "cleanup"}, {K: "adv", D: 2000}, {K: "hb", M: 0}, {K: "hb", M: 2}, {K: "cleanup"},
+			{K: "join", M: 0, Sess: 40000, Reb: 5000, Topics: []int{0}}, {K: "join", M: 2, Sess: 40000, Reb: 5000, Topics: []int{0}}, {K: "sync", M: 0}}},
 		// C14 / C43: laggers at the rebalance deadline
 		{Parts: p, Seed: 16, Ops: []coOp{{K: "join", M: -1, Sess: 40000, Reb: 5000, Topics: []int{0}}, {K: "sync", M: 0}, {K: "join", M: -1, Sess: 40000, Reb: 5000, Topics: []int{0}}, {K: "adv", D: 4999}, {K: "cleanup"}, {K: "adv", D: 1}, {K: "cleanup"},
 			{K: "join", M: 1, Sess: 40000, Reb: 5000, Topics: []int{0}}, {K: "sync", M: 1}}},
